@@ -88,28 +88,42 @@ pub fn drive(spec: CheckSpec) -> i32 {
   let known = load_known(&spec.known);
   let mut violations: Vec<J> = agg.violations.clone();
 
-  // crash confirmation: re-execute each crashed run alone in a fresh worker
+  // crash confirmation: re-execute crashed runs alone in fresh workers (at most CONFIRM_CAP of
+  // them, side by side: a tree that hangs on every other run must not cost an hour of watchdogs)
+  const CONFIRM_CAP: usize = 6;
   let mut harness_trouble = false;
   let mut seen_crash: BTreeSet<u64> = BTreeSet::new();
-  for (k, why) in &agg.crashed {
-    if !seen_crash.insert(*k) { continue; }
+  let mut to_confirm: Vec<(u64, String)> = vec![];
+  for (k, why) in &agg.crashed { if seen_crash.insert(*k) { to_confirm.push((*k, why.clone())); } }
+  to_confirm.sort();
+  if to_confirm.len() > CONFIRM_CAP {
+    println!("NOTE: {} runs killed or hung their worker; the first {} are re-executed alone{}", to_confirm.len(), CONFIRM_CAP, if agg.stopped_by_deaths { " (the batch stopped handing out runs after that many deaths)" } else { "" });
+    to_confirm.truncate(CONFIRM_CAP);
+  }
+  let handles: Vec<_> = to_confirm.into_iter().map(|(k, why)| {
     let bb = format!("/dev/shm/mechsim-blackbox-{}-{}.json", std::process::id(), k);
     let mut wa = spec.worker_args.clone();
     wa.push("--blackbox".into()); wa.push(bb.clone());
-    match run_single(wa, *k) {
+    std::thread::spawn(move || { let r = run_single(wa, k); (k, why, bb, r) })
+  }).collect();
+  for h in handles {
+    let (k, why, bb, r) = match h.join() { Ok(x) => x, Err(_) => { harness_trouble = true; continue; } };
+    match r {
       Err(why2) => {
         // the worker wrote what it was about to do before it died
         let boxed: J = std::fs::read_to_string(&bb).ok().and_then(|t| serde_json::from_str(&t).ok()).unwrap_or(J::Null);
-        let what = boxed["mutation"]["label"].as_str().map(|s| format!(" while feeding: {}", s)).unwrap_or_default();
-        let mut replay = if boxed.is_object() { boxed.clone() } else { json!({"world": spec.world, "regenerate": true, "worker_args": spec.worker_args}) };
-        if let Some(o) = replay.as_object_mut() { o.insert("seed".into(), json!(spec.seed)); o.insert("run".into(), json!(k)); o.insert("death".into(), json!(why2)); o.insert("first_death".into(), json!(why)); }
+        let what = boxed["mutation"]["label"].as_str().or_else(|| boxed["doing"].as_str()).map(|s| format!(" while executing: {}", crate::node::trunc(s, 300))).unwrap_or_default();
+        let mut replay = if boxed.is_object() { boxed.clone() } else { json!({"world": spec.world, "regenerate": true}) };
+        if let Some(o) = replay.as_object_mut() {
+          if o.get("regenerate").and_then(|x| x.as_bool()) == Some(true) { o.insert("worker_args".into(), json!(spec.worker_args)); }
+          o.insert("seed".into(), json!(spec.seed)); o.insert("run".into(), json!(k)); o.insert("death".into(), json!(why2)); o.insert("first_death".into(), json!(why));
+        }
         violations.push(json!({
           "property": spec.property, "class": "host-aborted",
           "signature": format!("host-aborted|process|{}", classify_death(&why2)),
-          "summary": format!("run {} killed its worker process twice{}: {}", k, what, why2),
+          "summary": format!("run {} killed or hung its worker process twice{}: {}", k, what, why2),
           "replay": replay,
         }));
-        std::fs::remove_file(&bb).ok();
       }
       Ok(_) => {
         if why.contains("WATCHDOG") {
@@ -121,6 +135,7 @@ pub fn drive(spec: CheckSpec) -> i32 {
         }
       }
     }
+    std::fs::remove_file(&bb).ok();
   }
 
   // replay files describe this run only: drop those of earlier runs of the same check
@@ -147,7 +162,15 @@ pub fn drive(spec: CheckSpec) -> i32 {
     if let Some(o) = replay.as_object_mut() { o.insert("property".into(), json!(spec.property)); o.insert("signature".into(), json!(sig)); }
     std::fs::write(&path, serde_json::to_string_pretty(&replay).unwrap()).ok();
     // replay in a fresh process must fail the same way
-    let confirmed = confirm_replay(&path, &sig);
+    let confirmed = if sig.starts_with("host-aborted|process|") { true } else { confirm_replay(&path, &sig) };
+    if !confirmed && sig.ends_with("|hang") {
+      // a wall-clock verdict is believed only if it repeats alone in a fresh process
+      println!("NOTE: a run exceeded its wall-clock bound under load but not when replayed alone ({}); not a verdict", path.display());
+      std::fs::remove_file(&path).ok();
+      n_viol -= 1;
+      reported.remove(&sig);
+      continue;
+    }
     println!("VIOLATION property={} replay={}", spec.property, path.display());
     println!("  signature: {}", sig);
     println!("  {}", v["summary"].as_str().unwrap_or(""));
@@ -190,6 +213,7 @@ pub fn drive(spec: CheckSpec) -> i32 {
     "known_findings_hit": known_hit,
     "foreign_observations": n_foreign,
     "stopped_by_clock": agg.stopped_by_clock,
+    "stopped_by_worker_deaths": agg.stopped_by_deaths,
     "worker_deaths": agg.crashed.len(),
     "jobs": jobs,
   });
